@@ -126,6 +126,11 @@ def main(run: core.Run) -> None:
         n_prog = int(n_prog * 1.5)
     corpus = [m for m in c01.load_corpus()]
     tasks, progs = c01.generate_tasks(run, n_prog, 1, 25, semantic=False, structural=True)
+    # programs with constant subscripts in every scope (structure only: the Lean converter model does not cover
+    # subscripts, so there is no tie for them; checker, scope walker and the verified wfGraph see their protos)
+    stasks, sprogs = c01.generate_tasks(run, run.size(120, 1200), 1, 25, subscripts=True, prefix="g",
+                                        semantic=False, structural=True)
+    tasks += stasks
     # near-miss programs
     near = []
     for k in range(n_near):
